@@ -97,6 +97,14 @@ func lzCases(seed, label uint64, count int, lclp4 bool) []lzCase {
 		if k.Part == "bytes" && k.N > 3000 {
 			k.N = 3000
 		}
+		if i >= 450 && i%47 == 5 {
+			// runs of a few to a few hundred equal bytes between other data, many revolutions of
+			// a small ring (dictionary + look-ahead + 1 bytes), hash-table matcher: overlapping
+			// matches that straddle the physical end of the ring buffer
+			rr := prng.New(seed, label, 97, uint64(i))
+			k.DictCap, k.BufSize, k.Matcher = rr.Pick(4096, 4096, 5000), rr.Pick(4096, 273, 300), 0
+			k.Family, k.N, k.Part = []string{"shortruns", "lowent", "maxrun", "altseg"}[rr.Intn(4)], rr.Pick(40000, 90000), []string{"one", "random"}[rr.Intn(2)]
+		}
 		if i >= 450 && i%9 == 4 {
 			// content built against the range coder's arithmetic under this case's properties:
 			// runs of held-back bytes, ended with or without a carry (see gen "carry:")
